@@ -172,7 +172,7 @@ def execute(plan):
             _write(store, f, txt2.encode())
             r1, _ = child(home, {'ops': ['new_system', 'eval'], 'seed': seed})
             judge_eval(r1, 'stale md5 in %s' % f, v, probes)
-            if _read(store, f) != before:
+            if _norm(f, _read(store, f)) != _norm(f, before):
                 v.append(V('store', '%s with a stale md5 was not regenerated to the original bytes' % f, what='not_regenerated'))
             else:
                 probes['regenerated_models'] = probes.get('regenerated_models', 0) + 1
@@ -190,7 +190,7 @@ def execute(plan):
             # recovery: the documented remedy (full code generation) must always give a matching store
             r2, _ = child(home, {'ops': ['prepare_full', 'new_system', 'eval'], 'seed': seed + 1})
             judge_eval(r2, 'after prepare() on the torn store', v, probes)
-            if _read(store, f) != before:
+            if _norm(f, _read(store, f)) != _norm(f, before):
                 v.append(V('regen_identity', 'prepare() after a torn %s does not restore the original bytes' % f, what='bytes_differ'))
         elif kind == 'deleted':
             f = plan['file']
@@ -199,7 +199,7 @@ def execute(plan):
             os.remove(os.path.join(store, f))
             r1, _ = child(home, {'ops': ['new_system', 'eval'], 'seed': seed})
             judge_eval(r1, 'deleted %s' % f, v, probes)
-            if not os.path.isfile(os.path.join(store, f)) or _read(store, f) != before:
+            if not os.path.isfile(os.path.join(store, f)) or _norm(f, _read(store, f)) != _norm(f, before):
                 v.append(V('store', 'deleted %s was not regenerated to the original bytes' % f, what='not_regenerated'))
             else:
                 probes['regenerated_models'] = probes.get('regenerated_models', 0) + 1
@@ -247,6 +247,13 @@ def execute(plan):
 def _read(store, f):
     with open(os.path.join(store, f), 'rb') as fh:
         return fh.read()
+
+
+def _norm(f, blob):
+    """__init__.py records andes.__version__ (derived by versioneer from the git state of the checkout): not generated code."""
+    if f == '__init__.py':
+        return b'\n'.join(ln for ln in blob.split(b'\n') if not ln.startswith(b'__version__'))
+    return blob
 
 
 def _write(store, f, data):
